@@ -122,9 +122,12 @@ Init == /\ now = 0 /\ timer = Period
         /\ pool = [s \in 1..NBuf |-> Free]
         /\ last = NoObs /\ hist = <<>>
 
-Log(a, args, exp) ==
+\* `via` names the spec action that produced the step (not compared with anything; used to count what the
+\* replayed behaviours exercised)
+LogV(a, args, exp, via) ==
   /\ last' = [a |-> a, args |-> args, exp |-> exp]
-  /\ hist' = Append(hist, [a |-> a, args |-> args, exp |-> exp])
+  /\ hist' = Append(hist, [a |-> a, args |-> args, exp |-> exp, via |-> via])
+Log(a, args, exp) == LogV(a, args, exp, a)
 
 FreeSlots == {s \in 1..NBuf : pool[s].w = "free"}
 MinOf(S) == CHOOSE x \in S : \A y \in S : x <= y
@@ -139,12 +142,12 @@ Learn(ip, p, mac) == [tbl EXCEPT ![ip] = [port |-> p, mac |-> mac, exp |-> now +
 FlushMsgs(ip, mac, p) == [i \in DOMAIN wait[ip] |-> Po(wait[ip][i].buf, wait[ip][i].inp, <<Dst(mac), Out(p)>>, NoFrame)]
 
 \* common tail of every packet-in step: run the messages on the switch, log
-Finish(a, args, s, msgs, pool1, tbl1, wait1, arps1) ==
+Finish(a, via, args, s, msgs, pool1, tbl1, wait1, arps1) ==
   LET sw == RunMsgs(msgs, [pool |-> pool1, out |-> <<>>, errs |-> 0]) IN
   /\ pool' = sw.pool /\ tbl' = tbl1 /\ wait' = wait1 /\ arps' = arps1
   /\ UNCHANGED <<now, timer>>
-  /\ Log(a, args, [pin |-> s, msgs |-> msgs, out |-> Bag(sw.out), errs |-> sw.errs,
-                   st |-> St(tbl1, wait1, arps1, now)])
+  /\ LogV(a, args, [pin |-> s, msgs |-> msgs, out |-> Bag(sw.out), errs |-> sw.errs,
+                    st |-> St(tbl1, wait1, arps1, now)], via)
 
 IpArgs(st, dip) == [ip |-> st.ip, mac |-> st.mac, p |-> st.p, dip |-> dip]
 
@@ -155,7 +158,7 @@ IpForward(st, dip) ==
       tbl1 == Learn(st.ip, st.p, st.mac)
       e == tbl1[dip] IN
   /\ Known(tbl1, dip) /\ e.port # st.p
-  /\ Finish("IpIn", IpArgs(st, dip), s,
+  /\ Finish("IpIn", "IpForward", IpArgs(st, dip), s,
             FlushMsgs(st.ip, st.mac, st.p) \o <<Fm(s, <<Dst(e.mac), Out(e.port)>>, "exact", FlowIdle)>>,
             Stored(s, IpFrame(st, dip), st.p, "other"), tbl1, [wait EXCEPT ![st.ip] = <<>>], arps)
 
@@ -164,7 +167,7 @@ IpSamePort(st, dip) ==
   LET s == Alloc
       tbl1 == Learn(st.ip, st.p, st.mac) IN
   /\ Known(tbl1, dip) /\ tbl1[dip].port = st.p
-  /\ Finish("IpIn", IpArgs(st, dip), s, FlushMsgs(st.ip, st.mac, st.p),
+  /\ Finish("IpIn", "IpSamePort", IpArgs(st, dip), s, FlushMsgs(st.ip, st.mac, st.p),
             IF s = 0 THEN pool ELSE [pool EXCEPT ![s] = Junk("other")], tbl1, [wait EXCEPT ![st.ip] = <<>>], arps)
 
 \* destination unknown, no ARPing: nothing happens
@@ -172,7 +175,7 @@ IpIgnore(st, dip) ==
   LET s == Alloc
       tbl1 == Learn(st.ip, st.p, st.mac) IN
   /\ ~ArpForUnknowns /\ ~Known(tbl1, dip)
-  /\ Finish("IpIn", IpArgs(st, dip), s, FlushMsgs(st.ip, st.mac, st.p),
+  /\ Finish("IpIn", "IpIgnore", IpArgs(st, dip), s, FlushMsgs(st.ip, st.mac, st.p),
             IF s = 0 THEN pool ELSE [pool EXCEPT ![s] = Junk("other")], tbl1, [wait EXCEPT ![st.ip] = <<>>], arps)
 
 ArpReq(st, dip) == [k |-> "arp", op |-> 1, es |-> st.mac, ed |-> "bc", sha |-> st.mac, spa |-> st.ip, tha |-> "bc", tpa |-> dip]
@@ -181,7 +184,7 @@ ArpMsgs(st, dip) == IF arps[dip] > now THEN <<>> ELSE <<Po(0, st.p, <<Out(FLOOD)
 ArpsAfter(dip)   == IF arps[dip] > now THEN arps ELSE [arps EXCEPT ![dip] = now + ArpGap]
 
 \* destination unknown: the packet waits in its bucket
-IpWaitCommon(st, dip, over, relMsgs, fate) ==
+IpWaitCommon(st, dip, over, relMsgs, fate, via) ==
   LET s == Alloc
       tbl1 == Learn(st.ip, st.p, st.mac)
       bucket == Append(wait[dip], [exp |-> now + BufTime, buf |-> s, inp |-> st.p])
@@ -190,18 +193,18 @@ IpWaitCommon(st, dip, over, relMsgs, fate) ==
       pool1 == IF over /\ old.buf # 0 /\ fate = "leak" THEN [pool0 EXCEPT ![old.buf] = Junk("leak")] ELSE pool0 IN
   /\ ArpForUnknowns /\ ~Known(tbl1, dip)
   /\ over = (Len(bucket) > MaxPerIP)
-  /\ Finish("IpIn", IpArgs(st, dip), s,
+  /\ Finish("IpIn", via, IpArgs(st, dip), s,
             FlushMsgs(st.ip, st.mac, st.p) \o (IF relMsgs THEN <<Po(old.buf, old.inp, <<>>, NoFrame)>> ELSE <<>>)
               \o ArpMsgs(st, dip),
             pool1, tbl1,
             [wait EXCEPT ![st.ip] = <<>>, ![dip] = IF over THEN Tail(bucket) ELSE bucket],
             ArpsAfter(dip))
 
-IpWait(st, dip)        == dip \in Targets /\ IpWaitCommon(st, dip, FALSE, FALSE, "-")
+IpWait(st, dip)        == dip \in Targets /\ IpWaitCommon(st, dip, FALSE, FALSE, "-", "IpWait")
 \* DEVIATION (what the code does): the oldest waiting packet is forgotten, its buffer stays held for ever
-IpWaitForget(st, dip)  == ~Strict /\ IpWaitCommon(st, dip, TRUE, FALSE, "leak")
+IpWaitForget(st, dip)  == ~Strict /\ IpWaitCommon(st, dip, TRUE, FALSE, "leak", "IpWaitForget")
 \* documented intent ("maximum number of packets to buffer on a switch"): the switch is told to drop it
-IpWaitRelease(st, dip) == Strict /\ IpWaitCommon(st, dip, TRUE, TRUE, "-")
+IpWaitRelease(st, dip) == Strict /\ IpWaitCommon(st, dip, TRUE, TRUE, "-", "IpWaitRelease")
 
 \* ---- an ARP packet reaches the controller
 ArpArgs(src, op, tpa) == [p |-> src.p, es |-> src.es, sha |-> src.sha, spa |-> src.spa, ht |-> src.ht, op |-> op, tpa |-> tpa]
@@ -219,7 +222,7 @@ ArpAnswer(src, op, tpa) ==
       reply == [k |-> "arp", op |-> 2, es |-> "sw", ed |-> src.sha, sha |-> t[tpa].mac, spa |-> tpa,
                 tha |-> src.sha, tpa |-> src.spa] IN
   /\ Answerable(src, op, tpa)
-  /\ Finish("ArpIn", ArpArgs(src, op, tpa), s,
+  /\ Finish("ArpIn", "ArpAnswer", ArpArgs(src, op, tpa), s,
             ArpFlush(src) \o <<Po(0, src.p, <<Out(INPORT)>>, reply)>>,
             IF s = 0 THEN pool ELSE [pool EXCEPT ![s] = Junk("other")], t, ArpWait(src), arps)
 
@@ -228,7 +231,7 @@ ArpFlood(src, op, tpa) ==
   LET s == Alloc
       f == ArpFrame(src, op, tpa) IN
   /\ ~Answerable(src, op, tpa)
-  /\ Finish("ArpIn", ArpArgs(src, op, tpa), s,
+  /\ Finish("ArpIn", "ArpFlood", ArpArgs(src, op, tpa), s,
             ArpFlush(src) \o <<Po(s, src.p, <<Out(FLOOD)>>, IF s = 0 THEN f ELSE NoFrame)>>,
             Stored(s, f, src.p, "other"), ArpTbl(src), ArpWait(src), arps)
 
@@ -236,7 +239,7 @@ ArpFlood(src, op, tpa) ==
 OtherIn(p) ==
   LET s == Alloc IN
   p \in Ports /\
-  Finish("OtherIn", [p |-> p], s, <<>>, IF s = 0 THEN pool ELSE [pool EXCEPT ![s] = Junk("other")], tbl, wait, arps)
+  Finish("OtherIn", "OtherIn", [p |-> p], s, <<>>, IF s = 0 THEN pool ELSE [pool EXCEPT ![s] = Junk("other")], tbl, wait, arps)
 
 \* ---- time
 \* d seconds pass and no timer instant is reached
@@ -244,7 +247,7 @@ Advance(d) ==
   /\ now + d < timer
   /\ now' = now + d
   /\ UNCHANGED <<timer, tbl, wait, arps, pool>>
-  /\ Log("Tick", [d |-> d], [pin |-> 0, msgs |-> {}, out |-> {}, errs |-> 0, st |-> St(tbl, wait, arps, now + d)])
+  /\ LogV("Tick", [d |-> d], [pin |-> 0, msgs |-> {}, out |-> {}, errs |-> 0, st |-> St(tbl, wait, arps, now + d)], "Advance")
 
 \* d seconds pass and the timer fires (once or several times): _handle_expiration tells the switch to drop
 \* every waiting packet whose deadline lies before the instant of the firing
@@ -262,8 +265,8 @@ TimerFires(d) ==
   /\ now' = now + d /\ timer' = fire + Period
   /\ pool' = sw.pool /\ wait' = wait1
   /\ UNCHANGED <<tbl, arps>>
-  /\ Log("Tick", [d |-> d], [pin |-> 0, msgs |-> {<<m, cnt(m)>> : m \in ToSet(all)}, out |-> Bag(sw.out), errs |-> sw.errs,
-                             st |-> St(tbl, wait1, arps, now + d)])
+  /\ LogV("Tick", [d |-> d], [pin |-> 0, msgs |-> {<<m, cnt(m)>> : m \in ToSet(all)}, out |-> Bag(sw.out), errs |-> sw.errs,
+                              st |-> St(tbl, wait1, arps, now + d)], "TimerFires")
 
 IpIn(st, dip) == \/ IpForward(st, dip) \/ IpSamePort(st, dip) \/ IpIgnore(st, dip)
                  \/ IpWait(st, dip) \/ IpWaitForget(st, dip) \/ IpWaitRelease(st, dip)
